@@ -1273,7 +1273,8 @@ lys_compile_pattern_chblocks_xmlschema2perl(const struct ly_ctx *ctx, const char
 static const char *
 lys_compile_pattern_xmlschema_mce(char esc)
 {
-    /* \i, \c are XML NameStartChar, NameChar (and their complements within the Unicode scalar values) */
+    /* \i, \c are XML NameStartChar, NameChar (and their complements within the Unicode scalar values),
+     * \s is [ \t\n\r] and \w is all the characters except the categories P, Z, and C, which is narrower / wider than in PCRE2 */
     static const struct {
         char esc;
         const char *members;
@@ -1282,6 +1283,10 @@ lys_compile_pattern_xmlschema_mce(char esc)
         {'I', "\\x{0}-\\x{39}\\x{3B}-\\x{40}\\x{5B}-\\x{5E}\\x{60}\\x{7B}-\\x{BF}\\x{D7}\\x{F7}\\x{300}-\\x{36F}\\x{37E}\\x{2000}-\\x{200B}\\x{200E}-\\x{206F}\\x{2190}-\\x{2BFF}\\x{2FF0}-\\x{3000}\\x{E000}-\\x{F8FF}\\x{FDD0}-\\x{FDEF}\\x{FFFE}-\\x{FFFF}\\x{F0000}-\\x{10FFFF}"},
         {'c', "\\x{2D}-\\x{2E}\\x{30}-\\x{3A}\\x{41}-\\x{5A}\\x{5F}\\x{61}-\\x{7A}\\x{B7}\\x{C0}-\\x{D6}\\x{D8}-\\x{F6}\\x{F8}-\\x{37D}\\x{37F}-\\x{1FFF}\\x{200C}-\\x{200D}\\x{203F}-\\x{2040}\\x{2070}-\\x{218F}\\x{2C00}-\\x{2FEF}\\x{3001}-\\x{D7FF}\\x{F900}-\\x{FDCF}\\x{FDF0}-\\x{FFFD}\\x{10000}-\\x{EFFFF}"},
         {'C', "\\x{0}-\\x{2C}\\x{2F}\\x{3B}-\\x{40}\\x{5B}-\\x{5E}\\x{60}\\x{7B}-\\x{B6}\\x{B8}-\\x{BF}\\x{D7}\\x{F7}\\x{37E}\\x{2000}-\\x{200B}\\x{200E}-\\x{203E}\\x{2041}-\\x{206F}\\x{2190}-\\x{2BFF}\\x{2FF0}-\\x{3000}\\x{E000}-\\x{F8FF}\\x{FDD0}-\\x{FDEF}\\x{FFFE}-\\x{FFFF}\\x{F0000}-\\x{10FFFF}"},
+        {'s', "\\x{9}-\\x{A}\\x{D}\\x{20}"},
+        {'S', "\\x{0}-\\x{8}\\x{B}-\\x{C}\\x{E}-\\x{1F}\\x{21}-\\x{D7FF}\\x{E000}-\\x{10FFFF}"},
+        {'w', "\\p{L}\\p{M}\\p{N}\\p{S}"},
+        {'W', "\\p{P}\\p{Z}\\p{C}"},
         {0, NULL}
     };
     uint32_t u;
